@@ -1712,6 +1712,132 @@ def gen_glue(tree, out, report):
         report["model.py glue"] = "untranslatable: internal " + type(e).__name__ + ": " + str(e)
 
 
+# ------------------------------------------------------------------------------------------------ inspect.py: queries
+QSRC = "summer2/inspect.py"
+QHEADER = """-- GENERATED by harness/translate/gen_rates.py from /repo (summer2/inspect.py, summer2/model.py). Do not edit.
+import Summer.Model.Build
+set_option linter.unusedVariables false
+namespace Summer.Generated.Inspect
+open Summer Summer.Build
+
+section
+variable {α : Type}
+"""
+
+INSPECT_WANT = {
+    "query_compartments": (["model", "query", "tags", "as_idx"], [
+        "query = query or {}",
+        "tags = tags or []",
+        "if isinstance(tags, str):\n    tags = [tags]",
+        "if 'name' in query:\n    query = query.copy()\n    name = query.pop('name')\n    if isinstance(name, str):\n        compartments = model._compartment_name_map[name]\n"
+        "    elif isinstance(name, Callable):\n        match_lists = [model._compartment_name_map[n] for n in model._original_compartment_names if name(n)]\n"
+        "        compartments = list(itertools.chain.from_iterable(match_lists))\n    elif isinstance(name, Iterable):\n"
+        "        match_lists = [model._compartment_name_map[n] for n in name]\n        compartments = list(itertools.chain.from_iterable(match_lists))\n"
+        "    else:\n        raise TypeError()\nelse:\n    compartments = model.compartments",
+        "def get_equals(x):\n\n    def equals(y):\n        return y == x\n    return equals",
+        "def get_isin(x):\n\n    def isin(y):\n        return y in x\n    return isin",
+        "actual_q = {}",
+        "for k, v in query.items():\n    if isinstance(v, Callable):\n        actual_q[k] = v\n    elif isinstance(v, str):\n        actual_q[k] = get_equals(v)\n"
+        "    elif isinstance(v, Iterable):\n        actual_q[k] = get_isin(v)\n    else:\n        raise TypeError()",
+        "matched_comps = []",
+        "for c in compartments:\n    cur_match = True\n    for stratification, qfunc in actual_q.items():\n        if stratification in c.strata:\n"
+        "            cur_match = cur_match and qfunc(c.strata[stratification])\n        else:\n            cur_match = False\n    if cur_match:\n"
+        "        matched_comps.append(c)",
+        "if len(tags):\n    matched_comps = [c for c in matched_comps if all([t in c.tags for t in tags])]",
+        "if as_idx:\n    return np.array([c.idx for c in matched_comps], dtype=int)\nelse:\n    return matched_comps"]),
+    "query_flows": (["m", "flow_name", "source", "dest", "tags"], [
+        "if flow_name is not None:\n    if isinstance(flow_name, re.Pattern):\n        flows = [f for f in m.flows if flow_name.match(f.name)]\n"
+        "    elif isinstance(flow_name, str):\n        flows = [f for f in m.flows if flow_name == f.name]\n    else:\n        flows = flow_name\nelse:\n    flows = m.flows",
+        "if source:\n    source = source.copy()\n    name = source.pop('name', None)\n    if name is not None:\n"
+        "        flows = [f for f in flows if f.source and f.source.name == name]\n    source = frozenset(source.items())\n"
+        "    flows = [f for f in flows if not f.source or f.source._has_strata(source)]",
+        "if dest:\n    dest = dest.copy()\n    name = dest.pop('name', None)\n    if name is not None:\n"
+        "        flows = [f for f in flows if f.dest and f.dest.name == name]\n    dest = frozenset(dest.items())\n"
+        "    flows = [f for f in flows if not f.dest or f.dest._has_strata(dest)]",
+        "if tags:\n    if isinstance(tags, str):\n        tags = [tags]\n    flows = [f for f in flows if all([t in f.tags for t in tags])]",
+        "return flows"]),
+}
+INSPECT_MODEL_WANT = {
+    "query_compartments": (["self", "query", "tags", "as_idx"], ["from summer2.inspect import query_compartments", "return query_compartments(self, query, tags, as_idx)"]),
+    "query_flows": (["self", "flow_name", "source", "dest", "tags"], ["from summer2.inspect import query_flows", "return query_flows(self, flow_name, source, dest, tags)"]),
+    "get_matching_compartments": (["self", "name", "strata"], ["return self.query_compartments({'name': name} | strata)",
+        # (unreachable statements after the return, kept in the source)
+        "if isinstance(name, str):\n    name_query = self._compartment_name_map[name]",
+        "if isinstance(name, Callable):\n    match_lists = [self._compartment_name_map[n] for n in self._original_compartment_names if name(n)]\n"
+        "    name_query = list(itertools.chain.from_iterable(match_lists))\nelse:\n    match_lists = [self._compartment_name_map[n] for n in name]\n"
+        "    name_query = list(itertools.chain.from_iterable(match_lists))",
+        "if not len(strata):\n    return name_query\nelse:\n    _strata = frozenset(strata.items())\n    return [c for c in name_query if c._has_strata(_strata)]"]),
+}
+
+INSPECT_LEAN = """
+/-- `inspect.py::query_compartments(model, {"name": name, **query})` / `(model, query)` for a string `name` (or none) and string-valued
+filters, no tags, `as_idx=False` (pinned text; the callable / iterable forms of the text are not rendered).  `model._compartment_name_map[name]`
+is the list of the model's compartments of that name, in model order (`_update_compartment_name_map`, pinned in the model.py glue);
+`actual_q[k] = get_equals(v)`; the nested loop keeps `cur_match`, a missing key makes it `False`. -/
+def query_compartments (model : Model α) (name : Option String) (query : Strata) : List Comp :=
+  let compartments := match name with
+    | some name => model.comps.filter (fun (c : Comp) => c.name == name)
+    | none => model.comps
+  compartments.foldl (fun (matched_comps : List Comp) (c : Comp) =>
+    let cur_match := query.foldl (fun (cur_match : Bool) (kv : String × String) =>
+      if c.strata.any (fun p => p.1 == kv.1) then cur_match && (alookup c.strata kv.1 == some kv.2) else false) true
+    if cur_match then matched_comps ++ [c] else matched_comps) []
+
+/-- `inspect.py::query_flows(m, flow_name, source, dest)` for a string `flow_name` (or none) and dict filters, no tags (pinned text; the
+`re.Pattern` and list forms of `flow_name` are not rendered).  Flows are carried with their position in `m.flows` so that the selection can
+be reported as indices.  `if source:` is dict truthiness; `source.pop('name', None)` takes the reserved key `name` out of the filter (a
+present end must then carry that compartment name, a flow without that end is dropped); the remaining keys are a strata filter for which a
+flow WITHOUT that end is kept (`not f.source or …`). -/
+def query_flows (m : Model α) (flow_name : Option String) (source dest : Strata) : List (Flow α × Nat) :=
+  let flows : List (Flow α × Nat) := match flow_name with
+    | some flow_name => m.flows.zipIdx.filter (fun f => flow_name == f.1.name)
+    | none => m.flows.zipIdx
+  let flows : List (Flow α × Nat) := if source.length != 0 then
+      let name := alookup source "name"
+      let source := source.filter (fun p => p.1 != "name")
+      let flows := match name with
+        | some name => flows.filter (fun (f : Flow α × Nat) => match f.1.src with | some c => c.name == name | none => false)
+        | none => flows
+      flows.filter (fun f => match f.1.src with | none => true | some c => c.hasStrata source)
+    else flows
+  let flows : List (Flow α × Nat) := if dest.length != 0 then
+      let name := alookup dest "name"
+      let dest := dest.filter (fun p => p.1 != "name")
+      let flows := match name with
+        | some name => flows.filter (fun (f : Flow α × Nat) => match f.1.dst with | some c => c.name == name | none => false)
+        | none => flows
+      flows.filter (fun f => match f.1.dst with | none => true | some c => c.hasStrata dest)
+    else flows
+  flows
+"""
+
+
+def gen_inspect(itree, mtree, out, report):
+    try:
+        funcs = {n.name: n for n in itree.body if isinstance(n, ast.FunctionDef)}
+        def check(fn, fname, args, wanted, where):
+            if fn is None:
+                raise Untranslatable(f"{where}{fname} not found")
+            if [a.arg for a in fn.args.args] != args:
+                raise Untranslatable(f"signature of {where}{fname}: " + str([a.arg for a in fn.args.args]))
+            body = [ast.unparse(st) for st in fn.body if not (isinstance(st, ast.Expr) and isinstance(st.value, ast.Constant))]
+            if body != wanted:
+                k = next((i for i, (a, b_) in enumerate(zip(body, wanted)) if a != b_), min(len(body), len(wanted)))
+                raise Untranslatable(f"{where}{fname}: statement {k} is not the expected text: " + (body[k][:160] if k < len(body) else "<missing>"))
+        for fname, (args, wanted) in INSPECT_WANT.items():
+            check(funcs.get(fname), fname, args, wanted, "inspect.")
+        cls = [n for n in mtree.body if isinstance(n, ast.ClassDef) and n.name == "CompartmentalModel"]
+        methods = {n.name: n for n in cls[0].body if isinstance(n, ast.FunctionDef)} if cls else {}
+        for fname, (args, wanted) in INSPECT_MODEL_WANT.items():
+            check(methods.get(fname), fname, args, wanted, "CompartmentalModel.")
+        out.append(INSPECT_LEAN)
+        report["inspect.py queries"] = "ok"
+    except Untranslatable as e:
+        report["inspect.py queries"] = "untranslatable: " + str(e)
+    except Exception as e:
+        report["inspect.py queries"] = "untranslatable: internal " + type(e).__name__ + ": " + str(e)
+
+
 # ------------------------------------------------------------------------------------------------ util.py: binary search
 USRC = "summer2/functions/util.py"
 UHEADER = """-- GENERATED by harness/translate/gen_rates.py from /repo (summer2/functions/util.py). Do not edit.
@@ -2111,6 +2237,23 @@ def main():
     if old != gtext:
         with open(gpath, "w") as f:
             f.write(gtext)
+    # inspect.py
+    iout = [QHEADER]
+    try:
+        with open(os.path.join(REPO, QSRC)) as f:
+            itree = ast.parse(f.read())
+        with open(os.path.join(REPO, GSRC)) as f:
+            gtree2 = ast.parse(f.read())
+        gen_inspect(itree, gtree2, iout, report)
+    except Exception as e:
+        report["inspect.py"] = "untranslatable: " + type(e).__name__ + ": " + str(e)
+    iout.append("end\nend Summer.Generated.Inspect\n")
+    itext = "\n".join(iout)
+    ipath = os.path.join(OUT, "Inspect.lean")
+    old = open(ipath).read() if os.path.exists(ipath) else None
+    if old != itext:
+        with open(ipath, "w") as f:
+            f.write(itext)
     # util.py
     uout = [UHEADER]
     try:
